@@ -89,7 +89,7 @@ pub fn search(seed: u64, budget: &Budget, thorough: bool) -> (u64, Option<(Strin
             if let Err(e) = check_orf(&seq, min_len) { return (tried, Some((format!("min={} seq={}", min_len, hex(&seq)), e))); }
         } else {
             let sym = rng.bytes(1 + rng.below(8) as usize, b"ACGTNacgtn$XYZ");
-            let text = rng.bytes(rng.below(30) as usize, b"ACGTNacgtn$XYZRYKM");
+            let text = if rng.below(3) == 0 { (0..rng.below(30)).map(|_| rng.below(256) as u8).collect::<Vec<u8>>() } else { rng.bytes(rng.below(30) as usize, b"ACGTNacgtn$XYZRYKM") };
             if let Err(e) = check_alpha(&sym, &text) { return (tried, Some((format!("sym={} text={}", hex(&sym), hex(&text)), e))); }
         }
     }
